@@ -113,6 +113,30 @@ PLANNED = {
 }
 
 
+
+# later additions, appended to (technique, text) of the table above
+EXTRA = {
+    'C01': ('; algorithm-level TLA+ spec of ExtendedZoneProcessor::init (ExtProc.tla) bound to the finished per-year tables read out of the real processor and refined against TzSem.tla',
+            ' Algorithm level: ExtProc.tla transcribes init(year) function by function; TLC builds Table(zone, year) from the compiled tables (exported through the brokers) for every zone x year 1999..2050 and judges it equal, field by field (start instant, offsets, abbreviation, local start/until tuples, match count, pool high-water mark), to the table read out of a never-used real processor; checks Sorted, Covered, NoOverflow, WithinRecordedSize, NoStaleFlag; and the step function glued from the model tables is judged by TzSem.tla on the recorded source lines (the algorithm refines the semantics on all 387 zones).'),
+    'C02': ('; algorithm-level TLA+ spec of BasicZoneProcessor::init (BasicProc.tla) bound to the real five-slot cache and refined against TzSem.tla',
+            ' Algorithm level: BasicProc.tla transcribes init(year); TLC builds the cache for every zone x year 1999..2050 and judges it equal entry by entry (start, total offset, delta, abbreviation, year, month, dropped transitions) to the cache of a never-used real processor; checks FitsCache, Sorted, NoInvalidStart; the glued step function is judged by TzSem.tla (all 268 zones).'),
+    'C03': ('; ExtProc.tla / BasicProc.tla bound to the real processors reading every freshly generated table set',
+            ' On every compiled source the per-year tables of both real processors reading the generated C++ tables are also judged equal to ExtProc.tla / BasicProc.tla (about 100,000 tables per quick run).'),
+    'C04': ('; per-year transition tables of ZoneSpecifier and of ExtendedZoneProcessor both judged equal to ExtProc.tla by TLC',
+            ' Algorithm level: the finished transition table of a fresh ZoneSpecifier (default options) and of a never-used ExtendedZoneProcessor are both judged by TLC to equal ExtProc.tla\'s Table(zone, year) for every zone x year 1999..2050; the 8-option sweep covers every zone with an era boundary in range.'),
+    'C08': ('; every zone x every ordered pair of cached years on one long-lived processor compared (table and answers) with a never-used processor',
+            ' The edge Query(B) from "cached year = A" is additionally instantiated for every zone of both databases and every ordered pair (A, B) of 2000..2049 plus out-of-range years (1.7 million pairs): the per-year table and the answers on a 5-day lattice (thorough: daily) of one long-lived processor must equal those of a processor constructed in zero-filled memory.'),
+    'C09': ('; high-water / cache bounds on tables freshly generated by the real compiler (shipped source, a generated source, thorough: 2025b), read from the real processors and as invariants of ExtProc.tla / BasicProc.tla',
+            ' (iv) Compiler-generated zones: the real compiler (with BufSizeEstimator) regenerates tables from the shipped source and a generated source; the real processors reading them must stay below the recorded size / capacity / five slots for every year 1999..2050, and TLC checks NoOverflow, WithinRecordedSize and FitsCache on ExtProc.tla / BasicProc.tla bound to those processors.'),
+    'C14': ('; clock preset by setNow() in every other configuration; without a reference clock schedules to 140 s replayed also with the clock read only after the last loop() call',
+            ' The application may set the clock before the first loop() call (Preset); without a reference clock (always preset) steps of 5-40 s run past one wrap of the 16-bit millisecond bookkeeping and every edge is replayed twice: reading state and getNow() after every call, and only after the last one.'),
+    'C19': ('', ' The rendered data set is a feature cover of the collected data (every UTC/DST offset pair, abbreviation and item type; thorough: every zone), for both libraries.'),
+    'C20': ('', ' A generated source with offsets that are not multiples of the basic granularity on both sides of UTC is compiled in every run.'),
+}
+for _pid, (_t, _x) in EXTRA.items():
+    _c = CLAIMS[_pid]
+    CLAIMS[_pid] = (_c[0], _c[1] + _t, _c[2] + _x, _c[3], _c[4])
+
 def main():
     props = [json.loads(l) for l in open(os.path.join(VERIF, 'properties.jsonl'))]
     checks = []
